@@ -95,6 +95,27 @@ pub fn length_limit(s: &mut Src) {
     vcover!(true, "reached");
 }
 
+/// the limit is in bytes of the UTF-8 encoding, not characters: 32,768 two-byte characters
+/// (65,536 bytes, all constants) must be rejected.  The unwind bound is large because a guard that
+/// *counted characters* would loop over the content; the guard as written never looks at it.
+pub fn length_limit_multibyte(s: &mut Src) {
+    static BIG2: [u8; 65536] = {
+        let mut a = [0xC3u8; 65536];
+        let mut i = 1;
+        while i < 65536 {
+            a[i] = 0xA9;
+            i += 2;
+        }
+        a
+    };
+    let over = unsafe { std::str::from_utf8_unchecked(&BIG2[..]) };
+    let (inv, _sep) = mp::TopicFilter::is_invalid(over);
+    vassert!(inv, "C16|filter.length_limit_bytes|a filter of 65536 bytes in 32768 characters is accepted (limit counted in characters?)");
+    vassert!(mp::TopicName::is_invalid(over), "C18|name.length_limit_bytes|a topic name of 65536 bytes in 32768 characters is accepted (limit counted in characters?)");
+    vcover!(true, "reached");
+    let _ = s;
+}
+
 scenarios! {
     #[kani::unwind(2)] c16_plain0 [1] => plain0;
     #[kani::unwind(3)] c16_plain1 [3] => plain1;
@@ -120,4 +141,5 @@ scenarios! {
     #[kani::unwind(15)] c16_share_g_4 [12] => share_g_4;
     #[kani::unwind(16)] c16_share_g_5 [15] => share_g_5;
     #[kani::unwind(2)] c16_length_limit [1] => length_limit;
+    #[kani::unwind(70000)] c16_length_limit_multibyte [1] => length_limit_multibyte;
 }
